@@ -1224,7 +1224,7 @@ def graphRow82 : GRow where
   probes := [
     (.node 5 [.node 5 [.nil]], .acc),
     (.node 1 [.node 5 [.nil]], .rej),
-    (.node 5 [.nil], .acc),
+    (.node 5 [.nil], .rej),
     (.node 5 [.node 1 [.nil]], .acc)
   ]
 
@@ -1373,7 +1373,7 @@ def graphRow89 : GRow where
     (.node 1 [.node 5 [.node 5 [.node 5 [.nil, .list []]], .list [.node 5 [.node 5 [.nil], .list []], .node 5 [.node 5 [.nil], .list []]]]], .rej),
     (.node 5 [.nil], .rej),
     (.node 5 [.node 1 [.node 5 [.node 5 [.nil, .list []]], .list [.node 5 [.node 5 [.nil], .list []], .node 5 [.node 5 [.nil], .list []]]]], .rej),
-    (.node 5 [.node 5 [.nil, .list [.node 5 [.node 5 [.nil], .list []], .node 5 [.node 5 [.nil], .list []]]]], .acc),
+    (.node 5 [.node 5 [.nil, .list [.node 5 [.node 5 [.nil], .list []], .node 5 [.node 5 [.nil], .list []]]]], .rej),
     (.node 5 [.node 5 [.node 1 [.node 5 [.nil, .list []]], .list [.node 5 [.node 5 [.nil], .list []], .node 5 [.node 5 [.nil], .list []]]]], .acc),
     (.node 5 [.node 5 [.node 5 [.nil], .list [.node 5 [.node 5 [.nil], .list []], .node 5 [.node 5 [.nil], .list []]]]], .acc),
     (.node 5 [.node 5 [.node 5 [.node 1 [.nil, .list []]], .list [.node 5 [.node 5 [.nil], .list []], .node 5 [.node 5 [.nil], .list []]]]], .acc),
